@@ -365,7 +365,13 @@ class Universe(object):
                     '_type_info': [('k', Integer), ('name', Unicode)]})
         Derived = type('Derived', (Base,), {'__namespace__': ns_p,
                     '_type_info': [('extra', Unicode)]})
+        # ... and two subclasses living in namespaces nothing else uses
+        Far1 = type('Far1', (Base,), {'__namespace__': 'urn:verif:far1',
+                    '_type_info': [('f1', Unicode)]})
+        Far2 = type('Far2', (Base,), {'__namespace__': 'urn:verif:far2',
+                    '_type_info': [('f2', Integer)]})
         self.Base, self.Derived = Base, Derived
+        self.Far1, self.Far2 = Far1, Far2
         # two different classes that share one type name (different
         # namespaces): anything keyed by name instead of class mixes them up
         s_u2 = Spec('uni', lambda: Unicode, lambda r: _g_uni(r, 1, 6),
@@ -389,6 +395,7 @@ class Universe(object):
         it_spec = ArraySpec(s_int)
         it_spec.cls = Iterable(Integer)
         M['total'] = Method('total', [('xs', it_spec)], s_int)
+        M['mtom'] = Method('mtom', [('a', s_int)], s_uni)
         M['item1'] = Method('item1', [('i', self.item1)], s_uni)
         M['item2'] = Method('item2', [('i', self.item2)], s_uni)
         M['pa'] = Method('pa', [('a', s_int)], None)
@@ -473,6 +480,11 @@ class Universe(object):
             ctl.hit('fn', 'total')
             return sum(_num(x) for x in (xs or ()))
 
+        def f_mtom(ctx, a):
+            ctl.calls.append(('mtom', 'enter'))
+            ctl.hit('fn', 'mtom')
+            return u'm%s' % (a,)
+
         def f_item1(ctx, i):
             ctl.calls.append(('item1', 'enter'))
             ctl.hit('fn', 'item1')
@@ -494,6 +506,10 @@ class Universe(object):
         def f_poly(ctx, a):
             ctl.calls.append(('poly', 'enter'))
             ctl.hit('fn', 'poly')
+            if _num(a) % 4 == 2:
+                return Far1(k=_num(a), name=u'f%s' % (a,), f1=u'y%s' % (a,))
+            if _num(a) % 4 == 3:
+                return Far2(k=_num(a), name=u'g%s' % (a,), f2=_num(a) + 1)
             if _num(a) % 2:
                 return Derived(k=_num(a), name=u'd%s' % (a,),
                                                       extra=u'x%s' % (a,))
@@ -512,6 +528,8 @@ class Universe(object):
         ns['fmt'] = rpc(s_fmt.cls, _returns=Unicode)(f_fmt)
         ns['total'] = rpc(it_spec.cls, _returns=Integer)(f_total)
         ns['item1'] = rpc(self.item1.cls, _returns=Unicode)(f_item1)
+        # the response goes through apply_mtom on its way out
+        ns['mtom'] = rpc(Integer, _returns=Unicode, _mtom=True)(f_mtom)
         ns['item2'] = rpc(self.item2.cls, _returns=Unicode)(f_item2)
         ns['pa'] = rpc(Integer, _returns=PA)(f_pa)
         ns['poly'] = rpc(Integer, _returns=Base)(f_poly)
@@ -658,21 +676,26 @@ class Request(object):
         self.body = body
         self.label = label          # (method, kind) for reports
         self.spans = spans or []    # byte spans of leaf values in body
+        self.env = None             # extra WSGI environ entries
 
     def describe(self):
         return {'verb': self.verb, 'path': self.path, 'qs': self.qs,
                 'ctype': self.ctype,
                 'body_b64': base64.b64encode(self.body).decode('ascii'),
-                'label': list(self.label)}
+                'label': list(self.label), 'env': self.env}
 
     @classmethod
     def from_description(cls, d):
-        return cls(d['verb'], d['path'], d['qs'], d['ctype'],
+        r = cls(d['verb'], d['path'], d['qs'], d['ctype'],
                          base64.b64decode(d['body_b64']), tuple(d['label']))
+        r.env = d.get('env')
+        return r
 
     def with_body(self, body):
-        return Request(self.verb, self.path, self.qs, self.ctype, body,
+        r = Request(self.verb, self.path, self.qs, self.ctype, body,
                                                                     self.label)
+        r.env = self.env
+        return r
 
     def _relabel(self, label):
         self.label = label
@@ -826,8 +849,12 @@ def encode_request(uni, in_prot, mname, args, wrappers=False, app=None,
     raise ValueError(in_prot)
 
 
-def wsdl_request():
-    return Request('GET', '/', 'wsdl', None, b'', ('?wsdl', 'wsdl'))
+def wsdl_request(host=None):
+    r = Request('GET', '/', 'wsdl', None, b'', ('?wsdl', 'wsdl'))
+    if host is not None:
+        # the URL in the document comes from the client's Host header
+        r.env = {'HTTP_HOST': host}
+    return r
 
 Secret = VerifSecretError
 SecretKeyError = VerifSecretKeyError
